@@ -111,17 +111,23 @@ func c13Occurrence(c *vrep.Ctx) {
 		sep  string
 	}{{"none", nil, " "}, {"FlattenWhitespace", []NormalizeFunc{FlattenWhitespace}, " \n  "}}
 	ts := []float64{0.5, 0.8, 1}
-	c.R.Rule = fmt.Sprintf("ALL known-value sets over tokens {a,b,c,','}: every single value of 1..%d tokens, every pair of values of 1..%d tokens (none inside another; second value absent, or both present separated by an unrelated token) and long values of 40/80 tokens, alone or next to a registered near-duplicate (one character of one token changed, 40/80/400 tokens, its name sorting before or after) x ALL unknowns pre+K+post with pre/post of 0..%d tokens over {x,y,a} containing exactly one occurrence of K (family 'glued' attaches word or punctuation context without a blank: glued punctuation leaves the copy token aligned and is demanded exactly, glued letters are the recorded finding) x normaliser lists {none, FlattenWhitespace with multi-blank separators} x thresholds %v; MultipleMatch must report K with Confidence 1.0 and Offset/Extent of exactly that copy, NearestMatch(K) = (K, 1.0), all confidences in (0,1], all ranges inside the normalised unknown; library goroutines run as modelled threads (default schedule); non-trivial = distinct (value set, unknown, normaliser, threshold) cases", maxTok, pairTok, maxCtx, ts)
+	c.R.Rule = fmt.Sprintf("ALL known-value sets over tokens {a,b,c,','}: every single value of 1..%d tokens, every pair of values of 1..%d tokens (none inside another; second value absent, or both present separated by an unrelated token) and long values of 40/80 tokens, alone or next to a registered near-duplicate (one character of one token changed, 40/80/400 tokens, its name sorting before or after) and values with leading / trailing white space (blank, line break, two blanks) x ALL unknowns pre+K+post with pre/post of 0..%d tokens over {x,y,a} containing exactly one occurrence of K (family 'glued' attaches word or punctuation context without a blank: glued punctuation leaves the copy token aligned and is demanded exactly, glued letters are the recorded finding) x normaliser lists {none, FlattenWhitespace with multi-blank separators} x thresholds %v; MultipleMatch must report K with Confidence 1.0 and Offset/Extent of exactly that copy, NearestMatch(K) = (K, 1.0), all confidences in (0,1], all ranges inside the normalised unknown; library goroutines run as modelled threads (default schedule); non-trivial = distinct (value set, unknown, normaliser, threshold) cases", maxTok, pairTok, maxCtx, ts)
 	c.Bound("max_value_tokens", maxTok)
 	c.Bound("max_context_tokens", maxCtx)
 	body := func(r *vx.Run) {
-		fam := r.Choose(6, "family") // 0 single value, 1 pair (second value absent), 2 glued context, 3 both values present, 4 long value, 5 long value + registered near-duplicate
+		fam := r.Choose(7, "family") // 0 single value, 1 pair (second value absent), 2 glued context, 3 both values present, 4 long value, 5 long value + registered near-duplicate, 6 value with leading/trailing white space
+		lead, trail := "", ""
 		name2 := "K2"
 		var k1, k2 c13Value
 		two := false
 		switch fam {
 		case 0, 2:
 			k1 = single[r.Choose(len(single), "value")]
+		case 6:
+			// the value itself starts or ends with white space (license texts usually end in a line break)
+			k1 = small[r.Choose(len(small), "value")]
+			lead = []string{"", " ", "\n"}[r.Choose(3, "leading")]
+			trail = []string{"", " ", "\n", "  "}[r.Choose(4, "trailing")]
 		case 1, 3:
 			k1 = small[r.Choose(len(small), "value1")]
 			k2 = small[r.Choose(len(small), "value2")]
@@ -164,6 +170,11 @@ func c13Occurrence(c *vrep.Ctx) {
 		if len(pre.toks) > 0 {
 			parts = append(parts, strings.Join(pre.toks, nm.sep))
 		}
+		val1 := lead + strings.Join(k1.toks, nm.sep) + trail
+		if fam == 6 && lead == "" && trail == "" {
+			r.Note = map[string]interface{}{"skip": true}
+			return
+		}
 		parts = append(parts, strings.Join(k1.toks, nm.sep))
 		if fam == 3 {
 			// both values present, separated by an unrelated token
@@ -173,6 +184,16 @@ func c13Occurrence(c *vrep.Ctx) {
 			parts = append(parts, strings.Join(post.toks, nm.sep))
 		}
 		unknown := strings.Join(parts, nm.sep)
+		if fam == 6 {
+			// context separated by a single blank from the value's own white space (or nothing at the ends)
+			unknown = val1
+			if len(pre.toks) > 0 {
+				unknown = strings.Join(pre.toks, " ") + " " + unknown
+			}
+			if len(post.toks) > 0 {
+				unknown = unknown + " " + strings.Join(post.toks, " ")
+			}
+		}
 		if fam == 2 {
 			if len(pre.toks) == 0 && len(post.toks) == 0 {
 				r.Note = map[string]interface{}{"skip": true}
@@ -181,8 +202,8 @@ func c13Occurrence(c *vrep.Ctx) {
 			unknown = strings.Join(pre.toks, nm.sep) + strings.Join(k1.toks, nm.sep) + strings.Join(post.toks, nm.sep)
 		}
 		cl := New(ts[ti], nm.fn...)
-		id := fmt.Sprintf("values{%q", k1.text())
-		if err := cl.AddValue("K1", strings.Join(k1.toks, nm.sep)); err != nil {
+		id := fmt.Sprintf("values{%q", lead+k1.text()+trail)
+		if err := cl.AddValue("K1", val1); err != nil {
 			panic(err)
 		}
 		if two {
@@ -191,7 +212,7 @@ func c13Occurrence(c *vrep.Ctx) {
 		}
 		id += fmt.Sprintf("} unknown %q norm=%s T=%v", unknown, nm.name, ts[ti])
 		normU := cl.normalize(unknown)
-		normK := cl.normalize(strings.Join(k1.toks, nm.sep))
+		normK := cl.normalize(val1)
 		normK2 := ""
 		if two {
 			normK2 = cl.normalize(strings.Join(k2.toks, nm.sep))
@@ -214,7 +235,7 @@ func c13Occurrence(c *vrep.Ctx) {
 		var near *Match
 		p, d := underSched(func() {
 			ms = cl.MultipleMatch(unknown)
-			near = cl.NearestMatch(strings.Join(k1.toks, nm.sep))
+			near = cl.NearestMatch(val1)
 		})
 		msg := ""
 		onlyMisaligned := false
